@@ -71,6 +71,34 @@ template <class T, size_t N> struct FullEval<Tensor<T, N, N>> { enum { available
     template <class A> static void go(int op, A &a, const Tensor<T, N, N> &b, const Tensor<T, N, N> &c) { do_assign(op, a(all, all), b % c); }
     static Tensor<T, N, N> ref(const Tensor<T, N, N> &b, const Tensor<T, N, N> &c) { Tensor<T, N, N> r = b % c; return r; } };
 
+// evaluation-requiring right-hand side for a PARTIAL dynamic view: the selection is forced to compile-time extents (EP[,EQ])
+template <class Ten> struct PartEval { enum { available = 0 }; };
+template <class T, size_t N> struct PartEval<Tensor<T, N>> { enum { available = 1, EP = (N < 3 ? N : 3), EQ = 1 };
+    Tensor<T, EP, 2> X; Tensor<T, 2> y;
+    void fill(uint32_t seed) { for (size_t i = 0; i < EP * 2; ++i) X.data()[i] = smallval<T>(mix2(seed, i)); for (size_t i = 0; i < 2; ++i) y.data()[i] = smallval<T>(mix2(seed + 9, i)); }
+    auto expr() const { return X % y; }
+    Tensor<T, EP> ref() const { Tensor<T, EP> r = X % y; return r; } };
+template <class T, size_t M, size_t N> struct PartEval<Tensor<T, M, N>> { enum { available = 1, EP = (M < 2 ? M : 2), EQ = (N < 3 ? N : 3) };
+    Tensor<T, EP, 2> X; Tensor<T, 2, EQ> Y;
+    void fill(uint32_t seed) { for (size_t i = 0; i < EP * 2; ++i) X.data()[i] = smallval<T>(mix2(seed, i)); for (size_t i = 0; i < 2 * EQ; ++i) Y.data()[i] = smallval<T>(mix2(seed + 9, i)); }
+    auto expr() const { return X % Y; }
+    Tensor<T, EP, EQ> ref() const { Tensor<T, EP, EQ> r = X % Y; return r; } };
+template <class Ten, bool Av = PartEval<Ten>::available> struct PartEvalRun {
+    template <class U, class S> static bool go(U &, int, const Step &, Outcome &, S &, seq *, int *) { return false; } };
+template <class Ten> struct PartEvalRun<Ten, true> {
+    // forces the extents of d, computes expA and runs the assignment; returns true when handled
+    template <class U> static bool go(U &u, int op, const Step &st, Outcome &o, typename U::SelT &d, seq *q, int *fixi) {
+        using T = typename Ten::scalar_type; using PE = PartEval<Ten>;
+        const int want[2] = {(int)PE::EP, (int)PE::EQ};
+        for (int k = 0; k < U::R; ++k) { int N = u.dims[k]; int e = want[k]; if ((e - 1) * d.s[k] >= N) d.s[k] = 1; if (d.f[k] + (e - 1) * d.s[k] >= N) d.f[k] = N - 1 - (e - 1) * d.s[k]; d.ext[k] = e; d.l[k] = d.f[k] + (e - 1) * d.s[k] + 1; }
+        u.build_args(d, 0, 0, q, fixi);
+        PE pe; pe.fill(st.a[A_VAL]); auto ref = pe.ref();
+        for (int qi = 0, n = d.size(); qi < n; ++qi) { int di = d.at(u.dims, qi); u.expA[di] = apply_op<T>(op, u.sA[di], ref.data()[qi]); }
+        auto &a = *u.A;
+        o = window([&] { do_assign(op, MkView<U::R>::mk(a, q, fixi, 0), pe.expr()); }, u.failalloc);
+        return true;
+    } };
+
 template <class T, size_t... D> struct Uni : UniverseBase {
     using Ten = Tensor<T, D...>;
     using self = Uni<T, D...>;
@@ -78,6 +106,7 @@ template <class T, size_t... D> struct Uni : UniverseBase {
     static constexpr int SZ = (int)prod_<D...>::value;
     using View = TensorViewExpr<Ten, (size_t)R>;
     static constexpr int LANES = (int)Ten::simd_vector_type::Size;
+    using SelT = Sel<R>;
 
     std::string nm;
     int dims[R];
@@ -231,13 +260,15 @@ template <class T, size_t... D> struct Uni : UniverseBase {
 
     // ---------------------------------------------------------------- K_DYN_WRITE (C05)
     void dyn_write(const Step &st, StepCtx &cx) {
-        int op = (int)(st.a[A_OP] % 5); uint32_t rk = st.a[A_RHS] % 9; int form = (int)(st.a[A_FORM] % MkView<R>::NFORMS);
+        int op = (int)(st.a[A_OP] % 5); uint32_t rk = st.a[A_RHS] % 10; int form = (int)(st.a[A_FORM] % MkView<R>::NFORMS);
+        if (rk == 9 && (!PartEval<Ten>::available || op == 4)) rk = 1;       // rk 9: partial view op= X % Y
         if (rk == 6 && (!FullEval<Ten>::available || op == 4)) rk = 4;
         if (rk >= 7 && R == 1) rk = 1;                                 // rank-mismatched right-hand sides exist for rank >= 2 only
         normalise(cx.si, op, false);
         Sel<R> d; decode_sel(st, A_D0, 9, d);
         if (rk >= 4) { form = 0; for (int k = 0; k < R; ++k) { d.f[k] = 0; d.s[k] = 1; d.ext[k] = dims[k]; d.l[k] = dims[k]; } }   // whole-tensor right-hand sides need the full range
         if (form != 0 && rk > 1 && rk < 7) rk = rk % 2;
+        if (rk == 9) form = 0;
         if (op == 4 && (rk == 2 || rk == 3 || rk == 5)) rk = rk == 5 ? 4 : 1;            // divisors must stay powers of two
         Ten evref; if (rk == 6) evref = FullEval<Ten>::ref(*B, *C);
         if (op == 4 && rk == 8) rk = 7;
@@ -249,8 +280,9 @@ template <class T, size_t... D> struct Uni : UniverseBase {
         seq q1[4] = {seq(0, 1), seq(0, 1), seq(0, 1), seq(0, 1)}, q2[4] = {seq(0, 1), seq(0, 1), seq(0, 1), seq(0, 1)}; for (int k = 0; k < R; ++k) { q1[k] = seq(s1.f[k], s1.l[k], s1.s[k]); q2[k] = seq(s2.f[k], s2.l[k], s2.s[k]); }
         T sc = op == 4 ? pow2val<T>(st.a[A_VAL]) : smallval<T>(st.a[A_VAL]);
         // model
-        expA = sA; bool changed = false;
-        for (int qi = 0, n = d.size(); qi < n; ++qi) {
+        expA = sA; bool changed = false; Outcome o; bool handled = false;
+        if (rk == 9) handled = PartEvalRun<Ten>::go(*this, op, st, o, d, q, fixi);
+        if (!handled) for (int qi = 0, n = d.size(); qi < n; ++qi) {
             int di = d.at(dims, qi); T r;
             switch (rk) {
             case 0: r = sc; break;
@@ -265,8 +297,9 @@ template <class T, size_t... D> struct Uni : UniverseBase {
             }
             expA[di] = apply_op<T>(op, sA[di], r); if (memcmp(&expA[di], &sA[di], sizeof(T))) changed = true;
         }
+        if (handled) changed = memcmp(expA.data(), sA.data(), sizeof(T) * SZ) != 0;
         Ten &a = *A, &b = *B, &c = *C; Flat &fl = *F;
-        Outcome o = window([&] {
+        if (!handled) o = window([&] {
             switch (rk) {
             case 7: do_assign(op, MkView<R>::mk(a, q, fixi, form), fl(fq)); break;
             case 8: do_assign(op, MkView<R>::mk(a, q, fixi, form), fl(fq) * (T)2 + (T)1); break;
